@@ -58,7 +58,12 @@ def initOnG (fuel : Nat) (cfg : DCfg) : F α → Except PyErr (GSt α)
       let l ← initOnG fuel cfg φ
       let r ← initOnG fuel cfg ψ
       match op with
-      | .predSat _ | .predZero => .error .other        -- the interface-aware subclass: not part of these classes
+      | .predSat c =>
+          -- an insensitive predicate under a robustness semantics: the interface-aware subclass of `PredicateOperation`
+          -- (`PredicateOperation(node.operator, Semantics.OUTPUT_ROBUSTNESS, node.in_vars, node.out_vars)` with `out_vars` empty;
+          -- the members of `Semantics` are their positions in the enumeration, OUTPUT_ROBUSTNESS = 1)
+          pure (.bin (← construct fuel "IAPredicateOperation" [.cmp c, .int 1, .list [.int 0], .list []]) l r)
+      | .predZero => .error .other        -- the vacuity override: not translated
       | .pred c => pure (.bin (← build fuel op.kind (some c) none) l r)
       | _ => pure (.bin (← build fuel op.kind none none) l r)
   | .tmp1 op φ => do
